@@ -226,6 +226,35 @@ theorem C06_multitrack_unfold (s : MmlState) (col i id : Nat) (rest : List Nat) 
   ⟨rfl, rfl, parseMmlLoop_cons col i id rest s⟩
 
 
+/-- a second pair with event commands of the widened subset: `AB t120 @3 v12 [c(d)2]4 L p-1` and
+`B t120|@3<tab>v12 [ c ( d )2 ]4`, ` L p-1 ;end` -/
+def exEvMulti : List LLine :=
+  [.hdr [.letter 0, .letter 1] 32
+    [.cmd (.simple .tempoBpm (some { v := 120 })), .blank 32, .cmd (.simple .ins (some { v := 3 })), .blank 32, .cmd (.simple .vol (some { v := 12 })), .blank 32,
+     .cmd (.simple .loopStart none), .cmd (.note 2 .none (.dflt 0)), .cmd (.simple .volDown none), .cmd (.note 3 .none (.dflt 0)),
+     .cmd (.simple .volUp (some { v := 2 })), .cmd (.simple .loopEnd (some { v := 4 })), .blank 32, .cmd (.simple .segno none), .blank 32,
+     .cmd (.simple .pan (some { v := -1 }))] []]
+
+def exEvSingle : List LLine :=
+  [.hdr [.letter 1] 32
+    [.cmd (.simple .tempoBpm (some { v := 120 })), .bar, .cmd (.simple .ins (some { v := 3 })), .blank 9, .cmd (.simple .vol (some { v := 12 })), .blank 32,
+     .cmd (.simple .loopStart none), .blank 32, .cmd (.note 2 .none (.dflt 0)), .blank 32, .cmd (.simple .volDown none), .blank 32,
+     .cmd (.note 3 .none (.dflt 0)), .blank 32, .cmd (.simple .volUp (some { v := 2 })), .blank 32, .cmd (.simple .loopEnd (some { v := 4 }))] [],
+   .cont 32 [.cmd (.simple .segno none), .blank 32, .cmd (.simple .pan (some { v := -1 })), .blank 32] (tx ";end")]
+
+example : exEvMulti.map LLine.text = [tx "AB t120 @3 v12 [c(d)2]4 L p-1"] ∧
+    exEvSingle.map LLine.text = [tx "B t120|@3\tv12 [ c ( d )2 ]4", tx " L p-1 ;end"] ∧ layoutCmds exEvMulti = layoutCmds exEvSingle := by
+  refine ⟨by decide, by decide, rfl⟩
+
+example : LinesOk [0, 1] false exEvMulti ∧ LinesOk [1] false exEvSingle ∧
+    (∀ id ∈ [0, 1], CmdsOk (trackOf id MmlState.init).strip (layoutCmds exEvMulti)) := by
+  decide +kernel
+
+example :
+    ((outcome ["AB t120 @3 v12 [c(d)2]4 L p-1"]).2.lookup 1) = ((outcome ["B t120|@3\tv12 [ c ( d )2 ]4", " L p-1 ;end"]).2.lookup 1) ∧
+    (outcome ["AB t120 @3 v12 [c(d)2]4 L p-1"]).1 = none := by
+  decide +kernel
+
 /-! ## conditional blocks -/
 
 theorem setLb_self (s : MmlState) (b : LineBuffer) (h : s.inp.lb = b) : setLb s b = s := by
@@ -308,7 +337,7 @@ command list for the track list `ids` is a list of lines, each of them
 * `empty`, `comment r`: neutral lines in between.
 
 `ToksOk` asks of the tokens that blanks are space or tab and that every command's look-ahead
-condition of C05 (`CmdTail`) holds on the actual rest of its line — which is the case whenever the
+condition of C05 (`LCmdTail`) holds on the actual rest of its line — which is the case whenever the
 command is followed by at least one blank, tab, `|`, the comment or the end of the line
 (`C06_separator_suffices`), so a separator may be dropped only where the spelling stays unambiguous.
 `layoutCmds` are the commands of the layout in order.  The result is stated modulo the source
@@ -319,14 +348,17 @@ no references, `strip_getEvents`). -/
 open Ctrmml.MmlMeaning (Cmd) in
 /-- every non-empty separator works: behind a blank, a tab, `|`, the `;` comment or at the end of
 the line, the look-ahead condition of every command holds -/
-theorem C06_separator_suffices (t : Track) (cmd : Cmd) (hn : CmdNums t cmd) (ts : List Tok) (e : List Nat) (hok : ToksOk ts e)
-    (hcov : ∀ c ∈ cmdsOf ts, Covered c) (he : EndOk e) (hts : ∀ c ts', ts ≠ Tok.cmd c :: ts') :
-    CmdTail cmd (toksText ts e) :=
+theorem C06_separator_suffices (t : Track) (cmd : Cmd) (hn : LCmdNums t cmd) (ts : List Tok) (e : List Nat) (hok : ToksOk ts e)
+    (hcov : ∀ c ∈ cmdsOf ts, LCovered c) (he : EndOk e) (hts : ∀ c ts', ts ≠ Tok.cmd c :: ts') :
+    LCmdTail cmd (toksText ts e) :=
   cmdTail_of_sep t cmd hn ts e hok hcov he hts
 
-/-- A LAYOUT RUNS AS ITS COMMAND LIST (PARTIAL: `CmdsOk` — every command is in the subset C05
-covers, its numbers are `int`s accepted by the command, `&` finds its note; this is the only
-hypothesis beyond "the lines are a layout").  From any state, the lines of any layout for the
+/-- A LAYOUT RUNS AS ITS COMMAND LIST (PARTIAL: `CmdsOk` — every command is in the covered subset
+`LCovered` (Proofs/LayoutCmd: the subset C05 covers — notes `a`..`h` with accidental and every
+duration form, `r ^ l o < > Q q C s &` — widened by `D n` and the event commands `[ L`, `] ( )`
+with or without their number, `* @ v p K E M P G t T` with their number), its numbers are `int`s
+accepted by the command, `&` finds its note; this is the only hypothesis beyond "the lines are a
+layout").  From any state, the lines of any layout for the
 distinct tracks `ids` are accepted, every listed track ends — up to source references — as after
 the builder calls of the layout's commands in order (`runCmds`), and no other track changes. -/
 theorem C06_layout_run_partial (ids : List Nat) (ls : List LLine) (n : Nat) (s : MmlState) (r : Bool)
